@@ -655,6 +655,10 @@ func streams(c Cfg, n int, seed int64, out, rankOut string) {
 						}
 					}
 					rd := &chunkReader{b: append([]byte{}, data...), mode: rdm, rng: rng}
+					// marker, flushed before the load: if the process dies in Load (runaway allocation on a
+					// misread count) the check still knows which round trip it was
+					enc.Encode(sevent{Ev: "loading", Hid: hid, Hdr: hdr, Reader: rdm, Tgt: tgt, Shape: shape, Nbytes: len(data), Nitems: len(pre.Live)})
+					bw.Flush()
 					func() {
 						defer func() {
 							if r := recover(); r != nil {
